@@ -14,7 +14,7 @@ from ._pairs import V
 PID = "C17"
 LEVEL = "model_checking"
 WITNESSES = ["ks_strictly_between_0_and_1", "ks_full_stress", "cold_coefficient_partial", "heat_coefficient_zero", "gdd_clipped_low", "gdd_clipped_high",
-             "growth_curve_decay_stage", "decline_curve_reaches_zero", "inverse_checked", "fco2_above_1", "fco2_below_1"]
+             "growth_curve_decay_stage", "decline_curve_reaches_zero", "inverse_checked", "fco2_above_1", "fco2_below_1", "fco2_season_reset_site", "fco2_overridden_sink_strength"]
 NONTRIVIAL = WITNESSES
 TOL = 1e-12
 
@@ -157,33 +157,60 @@ def run(scn):
                         bad("required-time-inverts-growth-curve", {"cc": g, "t_required": tr, "cc_at_t_required": g2, "t": float(t)}, "equal within 1e-9")
                     hit("inverse_checked")
     elif fam == "fco2":
-        concs = [250, 300, 340, 369.41, 400, 450, 500, 550, 600, 700, 800, 1000, 1500, 2000, 2500] + ([280, 369.0, 370.0, 549.0, 551.0, 1999.0] if fine else [])
-        concs = sorted(concs)
-        prev = None
-        for c in concs:
-            spec = A.catalogue_spec(name, word="warm", end="2001/12/30" if True else None, co2={"constant_conc": True, "current_concentration": float(c)})
-            spec["end"] = "2002/04/20"
+        # The CO2 productivity factor is computed at two sites: compute_variables (first season) and reset_initial_conditions
+        # (every later season).  Both real functions are driven over the concentration lattice, for the crop's own sink
+        # strength and for overridden ones.
+        from aquacrop.initialize.compute_variables import compute_variables
+        from aquacrop.timestep.reset_initial_conditions import reset_initial_conditions
+
+        concs = [250, 300, 340, 369.41, 400, 450, 500, 540, 546, 549, 550, 551, 554, 560, 600, 700, 800, 1000, 1500, 1990, 2000, 2010, 2500]
+        if fine:
+            concs += [280, 320, 360, 369.0, 370.0, 380, 420, 480, 520, 530, 545, 547, 548, 552, 553, 556, 580, 650, 900, 1200, 1800, 1999.0, 2001.0, 2200]
+        concs = sorted(set(concs))
+        fsinks = [None, 1.0] if not fine else [None, 0.0, 0.2, 0.8, 1.0]
+        for fs in fsinks:
+            kw = {} if fs is None else {"fsink": fs}
+            spec = A.catalogue_spec(name, word="warm", cropkw=kw, co2={"constant_conc": True, "current_concentration": 400.0})
             try:
                 m = S.make_model(spec)
                 m._initialize()
-            except Exception as e:  # noqa: BLE001
+            except Exception:  # noqa: BLE001
                 res["notes"].append("initialisation failed in fco2 family")
                 continue
-            f = float(m._param_struct.Seasonal_Crop_List[0].fCO2)
-            nodes += 1
-            if not np.isfinite(f) or f <= 0:
-                bad("fco2-positive-finite", {"conc": c, "fCO2": f}, "> 0")
-            if abs(c - 369.41) < 1e-9 and abs(f - 1.0) > 1e-12:
-                bad("fco2-is-1-at-reference", {"fCO2": f}, 1.0)
-            if prev is not None:
-                edges += 1
-                if f < prev[1] - 1e-12:
-                    bad("fco2-non-decreasing-in-concentration", {"conc": [prev[0], c], "fCO2": [prev[1], f], "WP": float(m.crop.WP), "fsink": float(m.crop.fsink)}, "non-decreasing")
-            prev = (c, f)
-            if f > 1:
-                hit("fco2_above_1")
-            if f < 1:
-                hit("fco2_below_1")
+            ps, ck = m._param_struct, m._clock_struct
+            for site in ("first_season", "season_reset"):
+                prev = None
+                for c in concs:
+                    ps.CO2.constant_conc = True
+                    ps.CO2.current_concentration = float(c)
+                    try:
+                        if site == "first_season":
+                            ps = compute_variables(ps, m.weather_df, ck)
+                            f = float(ps.Seasonal_Crop_List[0].fCO2)
+                        else:
+                            cond, ps = reset_initial_conditions(ck, m._init_cond, ps, m._weather, m.crop)
+                            f = float(ps.Seasonal_Crop_List[ck.season_counter].fCO2)
+                    except Exception as e:  # noqa: BLE001
+                        bad("fco2-computable", {"site": site, "conc": c, "exc": repr(e)[:120]}, "a value", site=site)
+                        break
+                    nodes += 1
+                    if not np.isfinite(f) or f <= 0:
+                        bad("fco2-positive-finite", {"site": site, "conc": c, "fCO2": f}, "> 0", site=site)
+                    if abs(c - 369.41) < 1e-9 and abs(f - 1.0) > 1e-12:
+                        bad("fco2-is-1-at-reference", {"site": site, "fCO2": f}, 1.0, site=site)
+                    if prev is not None:
+                        edges += 1
+                        if f < prev[1] - 1e-12:
+                            bad("fco2-non-decreasing-in-concentration", {"site": site, "conc": [prev[0], c], "fCO2": [prev[1], f], "fsink": float(ps.Seasonal_Crop_List[0].fsink)}, "non-decreasing", site=site)
+                    prev = (c, f)
+                    if f > 1:
+                        hit("fco2_above_1")
+                    if f < 1:
+                        hit("fco2_below_1")
+                    if site == "season_reset":
+                        hit("fco2_season_reset_site")
+                    if fs is not None:
+                        hit("fco2_overridden_sink_strength")
     res["evals"] = nodes + edges
     res["transitions"] = edges
     res["states"] = b""
@@ -197,7 +224,7 @@ def describe(tier):
         "rule": "for each of the 37 catalogue crops the real functions are called on a lattice: water_stress (depletion -20..120 % of TAW step " + ("2.5" if fine else "5") + " x ET0 {0.1,1,3,5,8,12,20} x "
                 "early-senescence days {0,5} x beta {T,F}); temperature_stress (-30..60 C step " + ("0.5" if fine else "1") + "); growing_degree_day (methods 1-3 x Tmin,Tmax grid step "
                 + ("1.5" if fine else "3") + ", Tmax>=Tmin); cc_development growth/decline (" + ("200" if fine else "100") + " time points over twice the cycle x CCx,CGC,CDC of the crop and +-50 %); "
-                "cc_required_time o cc_development; fCO2 of the initialised season crop for 15" + ("+6" if fine else "") + " concentrations 250..2500 ppm through a real _initialize(). Nodes = points "
+                "cc_required_time o cc_development; fCO2 at BOTH sites that compute it (compute_variables for the first season, reset_initial_conditions for later seasons, called on a really initialised model) for 23" + ("+24" if fine else "") + " concentrations 250..2500 ppm (dense around 369.41, 550 and 2000) x sink strength {crop default, 1.0" + (", 0, 0.2, 0.8" if fine else "") + "}. Nodes = points "
                 "(range invariants), edges = neighbouring points along one axis (monotonicity).",
         "bound": "lattice complete at the stated resolution for all 37 crops",
         "exhaustive": True,
